@@ -16,12 +16,20 @@ def call(fn, conv=lambda x: x):
         return ('err', ct.err_name(e))
 
 
-def run_traversal(c, mode, inverse, starts, tsu):
+def run_traversal(c, mode, inverse, starts, tsu, probe=True):
     log = []
     st = lambda states, l: states[l].name if l in states else 'UNVISITED'
+
+    def on_enter(g, s):
+        log.append(('enter', g.label))
+        if probe:
+            # a realistic hook: look at the states of the neighbours by plain indexing (on a
+            # defaultdict this creates entries; the traversal must not depend on that)
+            for x in list(g.operands) + list(c.get_gate_users(g.label)):
+                _ = s[x]
     kw = dict(
         inverse=inverse,
-        on_enter_hook=lambda g, s: log.append(('enter', g.label)),
+        on_enter_hook=on_enter,
         on_discover_hook=lambda g, s: log.append(('discover', g.label, st(s, g.label))),
         unvisited_hook=lambda g, s: log.append(('unvisited', g.label)),
         on_traversal_end_hook=lambda s: log.append(('end',)),
